@@ -356,6 +356,32 @@ def streams(rng, tier):
                 rule="sink: raw write_all sequences (carrying on after failures), lengths 0..=cap+1; own replay oracle + model")
     s3.shrinkable = False
     out.append(s3)
+    # ---- the iterator adaptors encode::ArrayIter / MapIter into bounded sinks; the model runs the Encoder call chain they amount to
+    ops, mops = [], []
+    for _ in range(600 if tier == "quick" else 8000):
+        vals = [rng.choice([0, 1, 2, 23, 24, 255, 256, 1000, 65536, 70001]) for _ in range(rng.randint(0, 5))]
+        what, mode = rng.choice(["array", "map"]), rng.choice(["exact", "loose", "even"])
+        if what == "array":
+            items = [v for v in vals if mode != "even" or v % 2 == 0]
+            body = [f"u32:{v}" for v in items]
+            # a filter over an empty iterator reports the exact size 0: definite
+            ch = ([f"array:{len(items)}"] + body) if mode == "exact" or not vals else (["begin_array"] + body + ["end"])
+        else:
+            items = [(i, v) for i, v in enumerate(vals) if mode != "even" or v % 2 == 0]
+            body = [c for i, v in items for c in (f"u32:{i}", f"u32:{v}")]
+            ch = ([f"map:{len(items)}"] + body) if mode == "exact" or not vals else (["begin_map"] + body + ["end"])
+        exp = enc_chain(ch)
+        for cap in sorted(set(caps_for(len(exp), len(exp), tier)) | {max(len(exp) - 2, 0), max(len(exp) - 3, 0)}):
+            for k in rng.sample(KINDS, 3):
+                if k == "carray" and cap > 40:
+                    continue
+                ops.append(f"sinkiter {k} {cap} {what} {mode} {','.join(map(str, vals)) or '-'} #exp:{gen.hexb(exp)}")
+                mops.append(f"sinkenc {k} {cap} {' '.join(ch)}")
+    s5 = Stream("iterator-adaptors-into-sinks", "hcore", ops, model_ops=mops, judge=judge_enc, nontrivial=nontrivial,
+                rule="sinkiter: Encoder::encode(ArrayIter / MapIter over exact, loose and filtering iterators) into every bounded sink at capacities around "
+                     "the length; own-encoder oracle (succeeds iff it fits, a prefix of the encoding behind) + the model on the equivalent call chain")
+    s5.shrinkable = False
+    out.append(s5)
     # ---- scripts of Encoder calls on one sink, carrying on after failures
     s4 = Stream("call-scripts", "hcore", script_ops(rng, tier), judge=judge_script, nontrivial=lambda op, impl: "pos=" in impl,
                 rule="encseq: Encoder calls on ONE bounded sink carrying on after a call that did not fit (C13.call_script): a call is Ok iff its "
